@@ -23,8 +23,8 @@ import (
 func init() {
 	Register(&Scenario{Prop: "C30", Desc: "lite strategies: each backend once per attempt; fair counts", Run: runC30,
 		Quick: 500, Thorough: 60000,
-		Real:  "lite.Forward/findRoute/nextBackend, StrategyManager (GetNextBackend, TrackConnection, ActiveConnections), tryBackends",
-		Model: "raw clients, simulated dialer/backends; counter models",
+		Real:   "lite.Forward/findRoute/nextBackend, StrategyManager (GetNextBackend, TrackConnection, ActiveConnections), tryBackends",
+		Model:  "raw clients, simulated dialer/backends; counter models",
 		Assume: []string{"data races inside StrategyManager (shared rand.Rand, round-robin index) are only visible to the race build, which is not part of this check"}})
 }
 
@@ -37,6 +37,10 @@ func normBackend(a string) string {
 }
 
 func runC30(r *Run) {
+	if r.W.Pick(5) == 4 {
+		runC30LeastConnections(r)
+		return
+	}
 	strategy := []liteconfig.Strategy{liteconfig.StrategySequential, liteconfig.StrategyRoundRobin, liteconfig.StrategyLeastConnections, liteconfig.StrategyRandom, liteconfig.StrategyLowestLatency, ""}[r.W.Pick(6)]
 	pool := []string{"10.1.0.1:25565", "10.1.0.2:25565", "10.1.0.3", "10.1.0.1", "10.1.0.2:25566", "10.1.0.3:25565"}
 	nB := 1 + r.W.Pick(4)
@@ -249,4 +253,131 @@ func runC30(r *Run) {
 	}
 	r.State(fmt.Sprintf("%s b%d c%d", strategy, len(backends), nClients))
 	r.Res.Sample = map[string]any{"strategy": string(strategy), "backends": backends, "clients": nClients, "dials": len(w.dials), "sequential_clients": sequentialClients}
+}
+
+// runC30LeastConnections: the least-connections counters must follow the open links. Two
+// accepting backends; connections are opened and closed so that a close of a backend's only
+// link coincides (same simulated instant, any interleaving) with a new connection; then, at
+// rest, further connections are made one by one and each must be dialled to a backend with
+// the fewest links actually open (ties are free).
+func runC30LeastConnections(r *Run) {
+	r.Res.Variant = "least-connections-phased"
+	backends := []string{"10.1.0.1:25565", "10.1.0.2:25565"}
+	routes := []liteconfig.Route{{Host: []string{"*"}, Backend: backends, Strategy: liteconfig.StrategyLeastConnections}}
+	w := newLite(r, routes, nil)
+	defer w.finish()
+	openBy := map[string]int{}
+	for _, b := range backends {
+		b := b
+		lb := &liteBackend{}
+		lb.OnConn = func(bc *liteBackendConn) {
+			openBy[b]++
+			bc.readAll()
+			openBy[b]--
+		}
+		w.backend[b] = lb
+	}
+	type link struct {
+		c    *liteClient
+		gid  string
+		open bool
+	}
+	var links []*link
+	connect := func() *link {
+		c := w.connect(fmt.Sprintf("172.31.1.%d", len(links)+1))
+		l := &link{c: c, gid: fmt.Sprintf("a:lhandleconn%d", c.idx), open: true}
+		links = append(links, l)
+		r.Op("connect")
+		_, _ = c.conn.Write(handshakeFrame(763, "any.host", 25565, 2))
+		simrt.Go(func() { c.readAll() })
+		return l
+	}
+	type pick struct {
+		gid    string
+		before map[string]int
+	}
+	var atRest []pick
+	snapshot := func() map[string]int {
+		m := map[string]int{}
+		for _, b := range backends {
+			m[b] = openBy[b]
+		}
+		return m
+	}
+	done := false
+	rounds := 1 + r.W.Pick(3)
+	w.s.GoNamed("lc-script", func() {
+		defer func() { done = true }()
+		rest := func() { simrt.Sleep(300*time.Millisecond, "c30.rest") }
+		for round := 0; round < rounds; round++ {
+			// two links at rest, one per backend
+			a := connect()
+			rest()
+			d := connect()
+			rest()
+			// the same instant: a (alone on its backend) closes while b connects
+			r.Op("close-while-connecting")
+			simrt.Go(func() { _ = a.c.conn.Close(); a.open = false })
+			for i, n := 0, r.W.Pick(6); i < n; i++ {
+				simrt.Yield("c30.lc-jitter")
+			}
+			connect()
+			rest()
+			// at rest: three more, one by one
+			for k := 0; k < 3; k++ {
+				before := snapshot()
+				l := connect()
+				atRest = append(atRest, pick{gid: l.gid, before: before})
+				rest()
+			}
+			// drain for the next round
+			_ = d
+			for _, l := range links {
+				if l.open {
+					_ = l.c.conn.Close()
+					l.open = false
+				}
+			}
+			rest()
+		}
+	})
+	why := w.s.RunUntil(120*time.Second, func() bool { return done })
+	if why == "steps" {
+		r.Inconclusive("step budget exhausted")
+		return
+	}
+	w.s.RunUntil(5*time.Second, nil)
+	if r.CheckDeadlock() {
+		return
+	}
+	for _, p := range atRest {
+		first := ""
+		for _, d := range w.dials {
+			if d.By == p.gid {
+				first = d.Addr
+				break
+			}
+		}
+		if first == "" {
+			continue
+		}
+		minOpen := 1 << 30
+		for _, n := range p.before {
+			if n < minOpen {
+				minOpen = n
+			}
+		}
+		if p.before[normBackend(first)] != minOpen && p.before[first] != minOpen {
+			r.Fail("least-connections-picked-busier-backend", "phased", "with %v links open (at rest) the next connection was dialled to %s, which is not a backend with the fewest open links", p.before, first)
+			return
+		}
+	}
+	for _, b := range backends {
+		if openBy[b] != 0 {
+			r.Fail("backend-links-left-open", "count", "%d links to %s are still open after all clients closed", openBy[b], b)
+			return
+		}
+	}
+	r.State(fmt.Sprintf("lc-phased r%d picks%d", rounds, len(atRest)))
+	r.Res.Sample = map[string]any{"variant": "least-connections-phased", "rounds": rounds, "picks_at_rest": len(atRest)}
 }
